@@ -986,6 +986,9 @@ func parsedRec(en *expo.Entry, withEx, withST bool) srec {
 
 const kindMixed = "proto-mixed-native-classic-family"
 
+// text/OpenMetrics parsers accept a quoted blank label name; NHCB conversion then panics in labels.DropReserved
+const kindBlankNamePanic = "nhcb-panic-on-blank-label-name"
+
 // onlyMixed: every key (rendered "name{…") belongs to a family that mixes metrics with and without
 // a native part.
 func onlyMixed(fams []*fam, keys []string) bool {
@@ -1120,7 +1123,22 @@ func explain(ps parseSpec, d diff, want, got []srec) []string {
 
 func mutate(r *rand.Rand, src []byte, others [][]byte) []byte {
 	b := append([]byte{}, src...)
-	switch r.IntN(10) {
+	switch r.IntN(11) {
+	case 10: // blank (quoted) label name in place of a label name
+		var at []int
+		for i := 0; i+1 < len(b); i++ {
+			if b[i] == '=' && b[i+1] == '"' {
+				at = append(at, i)
+			}
+		}
+		if len(at) > 0 {
+			e := at[r.IntN(len(at))]
+			st := e
+			for st > 0 && (b[st-1] == '_' || b[st-1] >= '0' && b[st-1] <= '9' || b[st-1] >= 'a' && b[st-1] <= 'z' || b[st-1] >= 'A' && b[st-1] <= 'Z') {
+				st--
+			}
+			b = append(b[:st], append([]byte(`""`), b[e:]...)...)
+		}
 	case 0: // truncate
 		if len(b) > 0 {
 			b = b[:r.IntN(len(b))]
@@ -1273,7 +1291,11 @@ func totalOne(c *core.Case, payload []byte, ct string, o textparse.ParserOptions
 		if core.PanicOrigin(out.stack) != "repo" {
 			panic(out.pan)
 		}
-		c.Violatef("panic-on-hostile-payload", "content type %s, options %+v: panic %v\npayload: %q\n%s", ct, o, out.pan, clipS(string(payload), 1500), core.TrimStack(out.stack, 30))
+		kind := "panic-on-hostile-payload"
+		if strings.Contains(fmt.Sprint(out.pan), "index out of range [0] with length 0") && strings.Contains(out.stack, "labels.Labels.DropReserved") && strings.Contains(out.stack, "(*NHCBParser).processNHCB") {
+			kind = kindBlankNamePanic
+		}
+		c.Violatef(kind, "content type %s, options %+v: panic %v\npayload: %q\n%s", ct, o, out.pan, clipS(string(payload), 1500), core.TrimStack(out.stack, 30))
 		return
 	}
 	if out.err != nil && strings.HasPrefix(out.err.Error(), "more than ") {
